@@ -87,3 +87,15 @@ def chkInv (bits : Nat) (tab : List Nat) (m poly : Nat) : Bool :=
 /-- the packed two-nibble table of the GF(2^4) codec -/
 def opt4 (c x : Nat) : Nat := ((mul4 c (x >>> 4)) <<< 4) ||| (mul4 c (x &&& 15))
 end GF
+
+namespace GF
+/-- bounded quantifier over lo ≤ i < lo + cnt, for chunked kernel evaluation -/
+def allRange (lo cnt : Nat) (p : Nat → Bool) : Bool := (List.range' lo cnt).all p
+
+theorem allRange_spec {lo cnt : Nat} {p : Nat → Bool} (h : allRange lo cnt p = true) :
+    ∀ i, lo ≤ i → i < lo + cnt → p i = true := by
+  intro i h1 h2
+  unfold allRange at h
+  rw [List.all_eq_true] at h
+  exact h i (by rw [List.mem_range'_1]; exact ⟨h1, h2⟩)
+end GF
